@@ -88,6 +88,20 @@ func (g *gateSvc) bump(name string) {
 	g.mu.Unlock()
 }
 
+// hookCtx runs f the first time its deadline is asked for: LookupSecret asks between finding the
+// name unknown and joining (or starting) the in-flight request for it, so f runs exactly where a
+// descheduled caller would be overtaken by another caller's complete lookup.
+type hookCtx struct {
+	context.Context
+	once sync.Once
+	f    func()
+}
+
+func (c *hookCtx) Deadline() (time.Time, bool) {
+	c.once.Do(c.f)
+	return c.Context.Deadline()
+}
+
 // traceConcStore: reader goroutines on handles while polls, lookups, expiry sweeps and Close
 // run; the service is held blocked while readers must keep completing reads.
 //
@@ -99,7 +113,7 @@ func traceConcStore(t *testing.T, o opts) {
 		}
 		r := rng(o.seed, h)
 		// "poll" is an ordinary secret name too (it must not collide with anything internal)
-		g := &gateSvc{cur: map[string]int{"a": 1, "b": 1, "c": 1, "d": 1, "poll": 1}, gate: make(chan struct{})}
+		g := &gateSvc{cur: map[string]int{"a": 1, "b": 1, "c": 1, "d": 1, "e": 1, "poll": 1}, gate: make(chan struct{})}
 		var clock atomic.Int64
 		clock.Store(1_700_000_000)
 		tick := newFakeTicker()
@@ -112,6 +126,19 @@ func traceConcStore(t *testing.T, o opts) {
 		handles := map[string]setec.Secret{"a": st.Secret("a"), "b": st.Secret("b")}
 		if hc, err := st.LookupSecret(context.Background(), "c"); err == nil {
 			handles["c"] = hc
+		}
+		// "e": caller B finds it unknown, is overtaken by caller A's complete lookup, and only
+		// then starts its own request (a second flight for a name that is by now known)
+		var hA setec.Secret
+		hB, errB := st.LookupSecret(&hookCtx{Context: context.Background(), f: func() {
+			hA, _ = st.LookupSecret(context.Background(), "e")
+		}}, "e")
+		lateFlight := 0
+		if errB != nil || hA == nil || hB == nil {
+			lateFlight = 1
+		} else {
+			handles["e"] = hA
+			handles["e'"] = hB
 		}
 		// an updater on "a", read concurrently by every reader (C15 under the race detector)
 		type built struct{ idx int }
@@ -129,7 +156,7 @@ func traceConcStore(t *testing.T, o opts) {
 		}
 		var hmu sync.RWMutex
 		nreaders := 3 + r.Intn(3)
-		var reads, bad, wrong, nonmono, panics, lookupFail atomic.Int64
+		var reads, bad, wrong, nonmono, panics, lookupFail, lookupPanics atomic.Int64
 		stop := make(chan struct{})
 		var wg sync.WaitGroup
 		counters := make([]atomic.Int64, nreaders)
@@ -139,7 +166,7 @@ func traceConcStore(t *testing.T, o opts) {
 				defer wg.Done()
 				last := map[string]int{}
 				lastU := 0
-				names := []string{"a", "b", "c", "d", "poll"}
+				names := []string{"a", "b", "c", "d", "poll", "e", "e'"}
 				for k := 0; ; k++ {
 					select {
 					case <-stop:
@@ -177,6 +204,7 @@ func traceConcStore(t *testing.T, o opts) {
 						counters[ri].Add(1)
 						nm, idx, ok := strings.Cut(v, "#")
 						i, err := strconv.Atoi(idx)
+						n := strings.TrimSuffix(n, "'")
 						g.mu.Lock()
 						curI := g.cur[n]
 						g.mu.Unlock()
@@ -197,7 +225,7 @@ func traceConcStore(t *testing.T, o opts) {
 		windows, stalled := 0, 0
 		rounds := 6 + r.Intn(6)
 		for round := 0; round < rounds; round++ {
-			for _, n := range []string{"a", "b", "c", "d"} {
+			for _, n := range []string{"a", "b", "c", "d", "e"} {
 				if r.Intn(2) == 0 {
 					g.bump(n)
 				}
@@ -235,7 +263,7 @@ func traceConcStore(t *testing.T, o opts) {
 					func() {
 						defer func() {
 							if p := recover(); p != nil {
-								panics.Add(1)
+								lookupPanics.Add(1)
 							}
 						}()
 						ctx, cancel := context.WithTimeout(context.Background(), 30*time.Second)
@@ -289,10 +317,31 @@ func traceConcStore(t *testing.T, o opts) {
 			<-lookDone
 			g.gate = make(chan struct{})
 		}
+		cu := concUpdater(g, st)
+		// quiescent: after one more successful refresh every handle - however it was obtained -
+		// yields the service's current version of its secret
+		staleAfter := -1
+		if err := st.Refresh(context.Background()); err == nil {
+			staleAfter = 0
+			hmu.RLock()
+			for n, hd := range handles {
+				func() {
+					defer func() { recover() }() // panics are counted by the readers
+					base := strings.TrimSuffix(n, "'")
+					g.mu.Lock()
+					want := fmt.Sprintf("%s#%d", base, g.cur[base])
+					g.mu.Unlock()
+					if string(hd.Get()) != want {
+						staleAfter++
+					}
+				}()
+			}
+			hmu.RUnlock()
+		}
 		// a pinned name must still be there after all the expiry sweeps
 		dropped := 0
 		for n := range handles {
-			if safeSecret(st, n) == nil {
+			if safeSecret(st, strings.TrimSuffix(n, "'")) == nil {
 				dropped++
 			}
 		}
@@ -304,7 +353,90 @@ func traceConcStore(t *testing.T, o opts) {
 		afterClose := reads.Load() - afterBefore
 		close(stop)
 		wg.Wait()
-		emit("concstore\treaders=%d\treads=%d\tbad=%d\twrongname=%d\tnonmono=%d\twindows=%d\tstalled=%d\tpanics=%d\tafterclose=%d\tdropped_pinned=%d\tupd_bad=%d\tupd_nonmono=%d\tlookup_fail=%d\tmax_cond_waiting=%d",
-			nreaders, reads.Load(), bad.Load(), wrong.Load(), nonmono.Load(), windows, stalled, panics.Load(), afterClose, dropped, ubad.Load(), unonmono.Load(), lookupFail.Load(), g.maxCondWaiting.Load())
+		emit("concstore\treaders=%d\treads=%d\tbad=%d\twrongname=%d\tnonmono=%d\twindows=%d\tstalled=%d\tpanics=%d\tafterclose=%d\tdropped_pinned=%d\tupd_bad=%d\tupd_nonmono=%d\tlookup_fail=%d\tmax_cond_waiting=%d\tstale_after_refresh=%d\tlate_flight_fail=%d\tlookup_panics=%d\t%s",
+			nreaders, reads.Load(), bad.Load(), wrong.Load(), nonmono.Load(), windows, stalled, panics.Load(), afterClose, dropped, ubad.Load(), unonmono.Load(), lookupFail.Load(), g.maxCondWaiting.Load(), staleAfter, lateFlight, lookupPanics.Load(), cu)
 	}
+}
+
+
+// closeCounted is a built value that counts its Close calls.
+type closeCounted struct {
+	idx    int
+	closed atomic.Int32
+}
+
+func (c *closeCounted) Close() error { c.closed.Add(1); return nil }
+
+// concUpdater: Get from several goroutines while a rebuild is in progress.  The builder blocks
+// while building from version 2 of "b", which holds caller A inside its rebuild; caller C then
+// calls Get (after the install of version 2 completed), version 3 is installed, caller B calls
+// Get, and only then is A released.
+//
+//	cu_stale_get=   C or B returned a value older than an install completed before its call
+//	cu_final=       version the quiescent Get yields (3 expected)
+//	cu_cur_closed=  the current value was closed
+//	cu_multi_close= some replaced value closed more (or less) than once
+func concUpdater(g *gateSvc, st *setec.Store) string {
+	g.mu.Lock()
+	base := g.cur["b"]
+	g.mu.Unlock()
+	var mu sync.Mutex
+	all := map[int]*closeCounted{}
+	release := make(chan struct{})
+	inBuilder := make(chan struct{}, 4)
+	upd, err := setec.NewUpdater(context.Background(), st, "b", func(b []byte) (*closeCounted, error) {
+		_, idx, _ := strings.Cut(string(b), "#")
+		i, _ := strconv.Atoi(idx)
+		if i == base+1 {
+			inBuilder <- struct{}{}
+			<-release
+		}
+		c := &closeCounted{idx: i}
+		mu.Lock()
+		all[i] = c
+		mu.Unlock()
+		return c, nil
+	})
+	if err != nil {
+		return "cu_stale_get=0\tcu_final=-1\tcu_cur_closed=0\tcu_multi_close=0"
+	}
+	stale := 0
+	g.bump("b")
+	st.Refresh(context.Background()) // installs base+1
+	aDone := make(chan int, 1)
+	go func() { aDone <- upd.Get().idx }()
+	select {
+	case <-inBuilder:
+	case <-time.After(10 * time.Second):
+	}
+	cDone := make(chan int, 1)
+	go func() { cDone <- upd.Get().idx }() // started after the install of base+1 completed
+	g.bump("b")
+	st.Refresh(context.Background()) // installs base+2
+	bDone := make(chan int, 1)
+	go func() { bDone <- upd.Get().idx }() // started after the install of base+2 completed
+	time.Sleep(30 * time.Millisecond)
+	close(release)
+	if v := <-aDone; v < base+1 {
+		stale++
+	}
+	if v := <-cDone; v < base+1 {
+		stale++
+	}
+	if v := <-bDone; v < base+2 {
+		stale++
+	}
+	final := upd.Get()
+	curClosed, multi := 0, 0
+	if final.closed.Load() != 0 {
+		curClosed = 1
+	}
+	mu.Lock()
+	for _, c := range all {
+		if c != final && c.closed.Load() != 1 {
+			multi++
+		}
+	}
+	mu.Unlock()
+	return fmt.Sprintf("cu_stale_get=%d\tcu_final=%d\tcu_cur_closed=%d\tcu_multi_close=%d", stale, final.idx-base, curClosed, multi)
 }
